@@ -241,19 +241,6 @@ func c17Main(args []string) error {
 			fmt.Fprintf(w, "o ro session\nr %s writes=%d same=%v\n", strings.Join(res, " "), writes, fileSHA(path) == sha0)
 		}
 		bolt.VerifHook = nil
-		// ---- (c') the same probe through a read transaction of a read-write handle
-		if rw, err := bolt.Open(path, 0600, &bolt.Options{Timeout: time.Second}); err == nil {
-			sha1 := fileSHA(path) // Open itself may legitimately have flushed the free list
-			var pk string
-			_ = rw.View(func(tx *bolt.Tx) error { pk = pokeAll(tx, sha1); return nil })
-			same := fileSHA(path) == sha1
-			var reread string
-			_ = rw.View(func(tx *bolt.Tx) error { reread = string(tx.Bucket([]byte("b")).Get([]byte("k0001"))); return nil })
-			rw.Close()
-			fmt.Fprintf(w, "o rwview session\nr %s same=%v reread=%v\n", pk, same, reread == strings.Repeat("\x01", len(reread)) && len(reread) > 0)
-			// put the base file back exactly (the lock sequence and CLI parts compare against sha0)
-			sha0 = fileSHA(path)
-		}
 		// the command-line tool's inspection commands
 		for _, cmdline := range [][]string{{"check", path}, {"dump", path, "2"}, {"page", path, "2"}, {"pages", path}, {"keys", path, "b"},
 			{"get", path, "b", "k0001"}, {"buckets", path}, {"stats", path}, {"inspect", path}, {"info", path}} {
@@ -273,6 +260,17 @@ func c17Main(args []string) error {
 				e = "err"
 			}
 			fmt.Fprintf(w, "o cli %s\nr %s same=%v\n", cmdline[0], e, fileSHA(path) == sha0)
+		}
+		// ---- (c') the same probe through a read transaction of a read-write handle
+		if rw, err := bolt.Open(path, 0600, &bolt.Options{Timeout: time.Second}); err == nil {
+			sha1 := fileSHA(path) // Open itself may legitimately have flushed the free list
+			var pk string
+			_ = rw.View(func(tx *bolt.Tx) error { pk = pokeAll(tx, sha1); return nil })
+			same := fileSHA(path) == sha1
+			var reread string
+			_ = rw.View(func(tx *bolt.Tx) error { reread = string(tx.Bucket([]byte("b")).Get([]byte("k0001"))); return nil })
+			rw.Close()
+			fmt.Fprintf(w, "o rwview session\nr %s same=%v reread=%v\n", pk, same, reread == strings.Repeat("\x01", len(reread)) && len(reread) > 0)
 		}
 		fmt.Fprintln(w, "end")
 		w.Flush()
